@@ -56,6 +56,7 @@ def render(lay, idx):
     calls = lay["calls"]
     defs = []
     want = []
+    pre_stmts = []
     any_dot = any(c["brk"] in ("dot", "all") for c in calls) or lay["wrap"] in ("comp", "cond") or \
         lay["extra"] != "none"
     pieces = ["ds"]
@@ -68,6 +69,13 @@ def render(lay, idx):
             fname = f"f_{idx}_{k}"
             defs.append(f"def {fname}({p}): return {core}\n")
             arg_lines = [fname]
+        elif lay["kind"] == "var":
+            # the lambda is bound to a name in the statement before and passed by that name
+            fname = f"v_{idx}_{k}"
+            pre_stmts.append(f"{fname} = lambda {p}: {core}")
+            arg_lines = [fname]
+        elif lay["kind"] == "wrapped":
+            arg_lines = [f"keep(lambda {p}: {core})"]
         else:
             if c["brk"] in ("body", "all"):
                 # the body spans two physical lines inside parentheses
@@ -103,7 +111,7 @@ def render(lay, idx):
     elif lay["wrap"] == "cond":
         expr = f"({expr} if ds is not None else None)"
     pre = "a = 1; " if lay["pre"] else ""
-    stmt = f"{pre}q = {expr}"
+    stmt = "".join(ps + "\n" for ps in pre_stmts) + f"{pre}q = {expr}"
 
     def indent(text, n):
         return "\n".join((" " * n + ln) if ln.strip() else ln for ln in text.split("\n"))
